@@ -252,9 +252,25 @@ void CaptureModulePayload::setData(const std::string_view deviceDescription,
     payloadData.resize(newSize);
 }
 
-bool CaptureModulePayload::isValidPayload([[maybe_unused]] const uint8_t* data, const size_t size)
+bool CaptureModulePayload::isValidPayload(const uint8_t* data, const size_t size)
 {
-    return (size >= sizeof(Header));
+    if (size < minPayloadSize)
+        return false;
+
+    // device description, serial number, hardware version, software version, vendor data:
+    // each is a 16-bit length followed by that many bytes and has to fit into the buffer
+    size_t pos = sizeof(Header);
+    for (int i = 0; i < 5; ++i)
+    {
+        if (size - pos < sizeof(uint16_t))
+            return false;
+        const size_t length = swapEndian(*reinterpret_cast<const uint16_t*>(data + pos));
+        pos += sizeof(uint16_t);
+        if (length > size - pos)
+            return false;
+        pos += length;
+    }
+    return true;
 }
 
 const CaptureModulePayload::Header* CaptureModulePayload::getHeader() const
